@@ -1,6 +1,6 @@
 (* C13 — assignment, destructuring and augmented assignment store what Python stores. *)
 From Coq Require Import String List ZArith.
-From OL Require Import PyAst Namespace Lower Unpack UnpackProof AugOps.
+From OL Require Import PyAst Namespace Lower Unpack UnpackProof UnpackNested AugOps.
 From OLGen Require Import Tables.
 Import ListNotations.
 
@@ -26,6 +26,30 @@ Theorem C13_unpack_list : forall (V : Type) (g : nsp) (p : path) (ts : list tgt)
     /\ eval_stores V (ol "assign" (path_str p)) v stores = Some bs.
 Proof. exact unpack_flat_correct_list. Qed.
 Print Assumptions C13_unpack_list.
+
+(* NESTED patterns, any depth: tuple / list patterns inside each other, at most one starred target per level, a starred
+   target that is itself a pattern.  bind is Python's unpacking on nested sequences (reference semantics); run executes the
+   emitted stores IN ORDER - temporaries `__ol_assign_<position> := tuple(<accessor>)`, user names receiving accessors
+   `tmp[i]`, `tmp[i - n]`, `list(tmp[i:j])` - from the environment in which the first temporary holds the value's items.
+   The stores bind exactly what Python binds, in Python's order; in particular the temporaries of different levels never
+   overwrite each other (their names are position-derived: Fresh.helpers_distinct_positions). *)
+Theorem C13_unpack_nested : forall (A : Type) (g : nsp) (p : path) (ts : list expr) (tuple_form : bool) (value : expr)
+    (l : list (val A)) bs,
+  n_kind g = NGlobal ->
+  let t := if tuple_form then ETuple ts else EList ts in
+  bind A t (VSeq A l) = Some bs ->
+  exists stores E',
+    assign_auto g p t value = inl (NamedExpr (ol "assign" (path_str p)) (call (Name "tuple") [value]) :: stores)
+    /\ run A [(ol "assign" (path_str p), l)] stores = Some (E', bs).
+Proof. exact unpack_nested_correct. Qed.
+Print Assumptions C13_unpack_nested.
+
+Example C13_nested_nonvacuous :
+  let t := ETuple [ETuple [Name "a"; ETuple [Name "b"; Starred (Name "c")]]; Starred (Name "d"); EList [Name "e"]] in
+  let v := VSeq nat [VSeq nat [VAtom nat 1; VSeq nat [VAtom nat 2; VAtom nat 3; VAtom nat 4]]; VAtom nat 5; VAtom nat 6; VSeq nat [VAtom nat 7]] in
+  bind nat t v = Some [("a"%string, VAtom nat 1); ("b"%string, VAtom nat 2); ("c"%string, VSeq nat [VAtom nat 3; VAtom nat 4]);
+                       ("d"%string, VSeq nat [VAtom nat 5; VAtom nat 6]); ("e"%string, VAtom nat 7)].
+Proof. exact unpack_nested_example. Qed.
 
 (* two starred names in one pattern are refused, wherever they stand *)
 Theorem C13_two_stars_rejected : forall (g : nsp) p pre mid post x y value,
